@@ -60,6 +60,9 @@ TNext ==
     \/ (Is("Prim") /\ Prim(Ev.u, Ev.op, Ev.t, Ev.arg, IF "pool" \in DOMAIN Ev THEN Ev.pool ELSE 0))
     \/ (Is("Run") /\ Run(Ev.u, Ev.of, Ev.ost, Ev.size, Ev.total))
     \/ (Is("XJoinCall") /\ NoOp)
+    \* a third party reads a unit's state: TERMINATED is reported only for a unit that has terminated
+    \* (a blocked unit with a pending cancellation stays blocked until it is resumed)
+    \/ (Is("StateObs") /\ (Ev.st = 3 => Terminated(Ev.u)) /\ NoOp)
     \/ (Is("XJoinRet") /\ Ev.term = 1 /\ AllTerminated(SeqToSet(Ev.us)) /\ NoOp)
     \* the blocked counter is never negative; after all streams were joined no
     \* unit is blocked and the joined streams' pools are empty
